@@ -70,7 +70,7 @@ pub mod harness {
     fn bit(v: &ValueU64, k: usize) -> B4 { b4(v.payload, v.mask_xz, k) }
 
     // ---- Value leaf ----------------------------------------------------------------------------------------------------
-    #[vp_proof]
+    #[vp_proof_uf]
     pub fn leaf_value() {
         let v = any_v64();
         let e = Expression::Value { value: val(&v) };
@@ -118,8 +118,12 @@ pub mod harness {
         let (w1, w2): (usize, usize) = (kani::any(), kani::any());
         let (s1, s2): (bool, bool) = (kani::any(), kani::any());
         kani::assume(w1 <= 64 && w2 <= 64);
-        let inner = Expression::Unary { op: op1, x: leaf(&x), expr_context: ExpressionContext { width: w1, signed: s1 } };
-        let node = Expression::Binary { x: leaf(&y), op: op2, y: Box::new(inner), expr_context: ExpressionContext { width: w2, signed: s2 } };
+        let node = Expression::Binary {
+            x: leaf(&y),
+            op: op2,
+            y: Box::new(Expression::Unary { op: op1, x: leaf(&x), expr_context: ExpressionContext { width: w1, signed: s1 } }),
+            expr_context: ExpressionContext { width: w2, signed: s2 },
+        };
         let r = run(&node);
         let mut cache = MaskCache::default();
         let e1 = op1.eval_value_unary(&val(&x), w1, s1, &mut cache);
@@ -128,30 +132,31 @@ pub mod harness {
         std::mem::forget(node);
     }
 
-    /// opeval's call-site preconditions for context-determined operators
-    fn ctx_binary() -> (ValueU64, ValueU64, usize, bool) {
+    // The same with the REAL operator functions, stated against the IEEE 1800 reference of unit opeval (so a counterexample is a real
+    // input of the real code): the interpreter computes the IEEE result of a Binary / Unary node from the node's own width and signedness.
+    /// `x - y` (11.4.2, operands extended to the node width per 11.8.2): sensitive to operand order, node width and node signedness
+    #[vp_proof]
+    pub fn binary_real_sub() {
         let x = any_v64();
         let y = any_v64();
         let w: usize = kani::any();
         let signed: bool = kani::any();
         kani::assume(w >= 1 && w <= 64 && w >= x.width as usize && w >= y.width as usize);
         kani::assume(!signed || (x.signed && y.signed));
-        (x, y, w, signed)
-    }
-    /// the same statement with the REAL operator function (so a counterexample is a real input of the real code)
-    fn binary_real(op: Op, x: ValueU64, y: ValueU64, w: usize, signed: bool) {
-        let node = Expression::Binary { x: leaf(&x), op, y: leaf(&y), expr_context: ExpressionContext { width: w, signed } };
-        let r = run(&node);
-        let mut cache = MaskCache::default();
-        let e = op.eval_value_binary(&val(&x), &val(&y), w, signed, &mut cache);
-        assert!(same(&r, &e), "Binary glue ({:?}): eval(node) = {:?}, op.eval_value_binary(x, y, node.width, node.signed) = {:?}; x = {:?}, y = {:?}, width = {}, signed = {}", op, r, e, x, y, w, signed);
+        let node = Expression::Binary { x: leaf(&x), op: Op::Sub, y: leaf(&y), expr_context: ExpressionContext { width: w, signed } };
+        let r = run64(&node);
+        let (xp, xm) = ext(&x, w, signed);
+        let (yp, ym) = ext(&y, w, signed);
+        assert!(wf(&r) && r.width as usize == w && r.signed == signed, "Binary Sub node: result {:?}, node width = {}, node signed = {}", r, w, signed);
+        if xm != 0 || ym != 0 {
+            assert!(all_x(&r, w), "Binary Sub node with an x/z operand: {:?}", r);
+        } else {
+            assert!(r.mask_xz == 0 && r.payload == xp.wrapping_sub(yp) & rmask(w),
+                "Binary Sub node: eval = {:?}, IEEE 1800: (x - y) mod 2^width on the operands extended to the node width; x = {:?}, y = {:?}, width = {}, signed = {}", r, x, y, w, signed);
+        }
         std::mem::forget(node);
     }
-    #[vp_proof]
-    pub fn binary_real_sub() {
-        let (x, y, w, signed) = ctx_binary();
-        binary_real(Op::Sub, x, y, w, signed);
-    }
+    /// `x >>> y` (11.4.10): vacated bits take the sign bit iff the NODE is signed; the amount is the right child
     #[vp_proof]
     pub fn binary_real_ashr() {
         let x = any_v64_sized();
@@ -160,35 +165,40 @@ pub mod harness {
         let signed: bool = kani::any();
         kani::assume(w >= 1 && w <= 64 && w >= x.width as usize);
         kani::assume(!signed || x.signed);
-        binary_real(Op::ArithShiftR, x, y, w, signed);
+        let node = Expression::Binary { x: leaf(&x), op: Op::ArithShiftR, y: leaf(&y), expr_context: ExpressionContext { width: w, signed } };
+        let r = run64(&node);
+        assert!(wf(&r) && r.width as usize == w);
+        if y.mask_xz != 0 {
+            assert!(all_x(&r, w));
+        } else {
+            let s = y.payload;
+            let k: usize = kani::any();
+            kani::assume(k < w);
+            let e = if s < w as u64 && k + (s as usize) < w { ext_bit(&x, k + s as usize, signed) } else if signed { ext_bit(&x, w - 1, signed) } else { Zero };
+            assert!(bit(&r, k) == e, "Binary ArithShiftR node: bit {} is {:?}, IEEE 1800 gives {:?}; x = {:?}, amount = {:?}, width = {}, signed = {}, result = {:?}", k, bit(&r, k), e, x, y, w, signed, r);
+        }
+        std::mem::forget(node);
     }
+    /// unary minus (11.4.3) on the operand extended to the node width
     #[vp_proof]
-    pub fn binary_real_less() {
-        let x = any_v64();
-        let y = any_v64();
-        let w: usize = kani::any();
-        let signed: bool = kani::any();
-        kani::assume(w >= 1 && w <= 64 && (x.width >= 1 || y.width >= 1));
-        kani::assume(!signed || (x.signed && y.signed));
-        binary_real(Op::Less, x, y, w, signed);
-    }
-    fn unary_real(op: Op) {
+    pub fn unary_real_minus() {
         let x = any_v64();
         let w: usize = kani::any();
         let signed: bool = kani::any();
         kani::assume(w >= 1 && w <= 64 && w >= x.width as usize);
         kani::assume(!signed || x.signed);
-        let node = Expression::Unary { op, x: leaf(&x), expr_context: ExpressionContext { width: w, signed } };
-        let r = run(&node);
-        let mut cache = MaskCache::default();
-        let e = op.eval_value_unary(&val(&x), w, signed, &mut cache);
-        assert!(same(&r, &e), "Unary glue ({:?}): eval(node) = {:?}, op.eval_value_unary(x, node.width, node.signed) = {:?}; x = {:?}, width = {}, signed = {}", op, r, e, x, w, signed);
+        let node = Expression::Unary { op: Op::Sub, x: leaf(&x), expr_context: ExpressionContext { width: w, signed } };
+        let r = run64(&node);
+        let (xp, xm) = ext(&x, w, signed);
+        assert!(wf(&r) && r.width as usize == w);
+        if xm != 0 {
+            assert!(all_x(&r, w));
+        } else {
+            assert!(r.mask_xz == 0 && r.payload == 0u64.wrapping_sub(xp) & rmask(w),
+                "Unary minus node: eval = {:?}, IEEE 1800: (-x) mod 2^width on the operand extended to the node width; x = {:?}, width = {}, signed = {}", r, x, w, signed);
+        }
         std::mem::forget(node);
     }
-    #[vp_proof]
-    pub fn unary_real_minus() { unary_real(Op::Sub) }
-    #[vp_proof]
-    pub fn unary_real_bitnot() { unary_real(Op::BitNot) }
 
     // ---- Ternary (IEEE 1800 11.4.11 for a condition with a known 1 / all bits known 0) ----------------------------------------
     // selected = (some bit of the condition is a known 1) ? true branch : false branch;
@@ -205,7 +215,7 @@ pub mod harness {
     fn ternary_node(c: &ValueU64, t: &ValueU64, f: &ValueU64, width: usize, signed: bool) -> Expression {
         Expression::Ternary { cond: leaf(c), true_expr: leaf(t), false_expr: leaf(f), width, signed }
     }
-    #[vp_proof]
+    #[vp_proof_uf]
     pub fn ternary_select_extend() {
         let (c, t, f, width, signed) = ternary_inputs();
         let node = ternary_node(&c, &t, &f, width, signed);
@@ -229,7 +239,7 @@ pub mod harness {
         std::mem::forget(node);
     }
     /// mixed signedness spelled out: an unsigned node never sign-extends a signed branch; a both-signed node does
-    #[vp_proof]
+    #[vp_proof_uf]
     pub fn ternary_mixed_signedness() {
         let (c, mut t, mut f, width, _s) = ternary_inputs();
         let t_signed: bool = kani::any();
@@ -248,23 +258,6 @@ pub mod harness {
             k, bit(&r, k), e, c, t, f, width, r);
         std::mem::forget(node);
     }
-    #[vp_proof]
-    pub fn ternary_both_signed() {
-        let (c, mut t, mut f, width, _s) = ternary_inputs();
-        kani::assume(t.width >= 1 && f.width >= 1 && (t.width as usize) < width && (f.width as usize) < width);
-        t.signed = true;
-        f.signed = true;
-        let node = ternary_node(&c, &t, &f, width, true);
-        let r = run64(&node);
-        let sel = if truth(&c) == Some(true) { &t } else { &f };
-        assert!(r.signed);
-        let k: usize = kani::any();
-        kani::assume(k < width);
-        let sw = sel.width as usize;
-        let e = if k < sw { bit(sel, k) } else { bit(sel, sw - 1) };   // x/z sign bit extends as x/z
-        assert!(bit(&r, k) == e, "Ternary with both branches signed must sign-extend: bit {} is {:?}, expected {:?}", k, bit(&r, k), e);
-        std::mem::forget(node);
-    }
 
     // ---- Concatenation ------------------------------------------------------------------------------------------------
     fn sized_elem() -> (ValueU64, usize, usize) {
@@ -274,11 +267,9 @@ pub mod harness {
         kani::assume(rep <= 2);
         (v, rep, elem_width)
     }
-    /// {e_1 x rep_1, .., e_n x rep_n}, e_1 most significant; bounded in the SHAPE (n <= 3, rep <= 2), complete in the values
-    #[vp_proof]
-    pub fn concat_layout() {
-        let n: usize = kani::any();
-        kani::assume(n <= 3);
+    /// {e_1 x rep_1, .., e_n x rep_n}, e_1 most significant; bounded in the SHAPE (n <= 3 elements - one harness per n, so that the
+    /// Vec has a concrete length -, rep <= 2), complete in the values, widths and signedness
+    fn concat_layout(n: usize) {
         let e = [sized_elem(), sized_elem(), sized_elem()];
         let signed: bool = kani::any();
         let mut total = 0usize;
@@ -315,23 +306,14 @@ pub mod harness {
             "Concatenation: bit {} is {:?}, layout gives {:?}; n = {}, elements (value, repeat, _) = {:?}, result = {:?}", k, bit(&r, k), expect, n, e, r);
         std::mem::forget(node);
     }
-    /// {a, b}: b occupies the low bits (stated against the real Value::concat, proved per bit in unit value64)
-    #[vp_proof]
-    pub fn concat_order_two() {
-        let a = any_v64_sized();
-        let b = any_v64_sized();
-        let signed: bool = kani::any();
-        kani::assume(a.width as usize + b.width as usize <= 64);
-        let node = Expression::Concatenation { elements: vec![(leaf(&a), 1, a.width as usize), (leaf(&b), 1, b.width as usize)], signed };
-        let r = run64(&node);
-        let (aw, bw) = (a.width as usize, b.width as usize);
-        assert!(r.width as usize == aw + bw && r.signed == signed && wf(&r), "Concatenation of two: {:?} (node.signed = {})", r, signed);
-        let k: usize = kani::any();
-        kani::assume(k < aw + bw);
-        let e = if k < bw { bit(&b, k) } else { bit(&a, k - bw) };
-        assert!(bit(&r, k) == e, "{{a, b}}: bit {} is {:?}, expected {:?}; a = {:?}, b = {:?}, result = {:?}", k, bit(&r, k), e, a, b, r);
-        std::mem::forget(node);
-    }
+    #[vp_proof_uf]
+    pub fn concat_layout_n0() { concat_layout(0) }
+    #[vp_proof_uf]
+    pub fn concat_layout_n1() { concat_layout(1) }
+    #[vp_proof_uf]
+    pub fn concat_layout_n2() { concat_layout(2) }
+    #[vp_proof_uf]
+    pub fn concat_layout_n3() { concat_layout(3) }
 
     // ---- run time vs compile time: the analyzer's `Expression::eval_value` Ternary arm (extracted, crate::ct::ct_ternary) ------------
     fn ct_eval(c: &ValueU64, t: &ValueU64, f: &ValueU64, context_width: usize) -> Value {
@@ -349,7 +331,7 @@ pub mod harness {
         kani::assume(cw >= 1 && cw >= t.width as usize && cw >= f.width as usize);   // apply_context: context width covers both branches
         (c, t, f, cw)
     }
-    #[vp_proof]
+    #[vp_proof_uf]
     pub fn ct_rt_ternary_agree() {
         let (c, t, f, cw) = ct_rt_inputs();
         // the two evaluators test the condition differently: run time "some known 1", compile time "to_usize().unwrap_or(0) != 0"
@@ -363,7 +345,7 @@ pub mod harness {
     }
     /// must FAIL: the restriction on the condition above is necessary (e.g. cond = 2'b1x: run time takes the true branch - IEEE 1800:
     /// a vector with a known 1 is true - compile time takes the false branch)
-    #[vp_proof]
+    #[vp_proof_uf]
     pub fn canary_ct_rt_cond_known1_with_xz() {
         let (c, t, f, cw) = ct_rt_inputs();
         kani::assume(truth(&c) == Some(true) && c.mask_xz != 0);
@@ -375,7 +357,7 @@ pub mod harness {
     }
 
     // ---- vacuity canaries (must FAIL) ----------------------------------------------------------------------------------------
-    #[vp_proof]
+    #[vp_proof_uf]
     pub fn canary_ternary() {
         let (c, t, f, width, signed) = ternary_inputs();
         kani::assume(signed && t.signed && (t.width as usize) < width && truth(&c) == Some(true));
@@ -384,7 +366,7 @@ pub mod harness {
         assert!(r.payload == t.payload);              // false for a negative true branch: the sign extension is reachable
         std::mem::forget(node);
     }
-    #[vp_proof]
+    #[vp_proof_uf]
     pub fn canary_concat() {
         let e = [sized_elem(), sized_elem(), sized_elem()];
         kani::assume(e[0].1 == 2 && e[1].1 == 0 && e[2].1 == 2);
